@@ -146,6 +146,9 @@ class CellRef:
 class OptExt: pass
 class Tup:
     def __init__(self, items): self.items = items
+class EnumS:
+    """an enum whose variant depends on a Boolean function: `cond` true -> a (EnumV), false -> b (EnumV)"""
+    def __init__(self, cond, a, b): self.cond, self.a, self.b = cond, a, b
 class EnumV:
     """a value of an enum whose variant is known on this path (Ok(x), Some(x), Continue(x), ...)"""
     def __init__(self, adt, vi, items): self.adt, self.vi, self.items = adt, vi, items
@@ -183,10 +186,14 @@ class Interp:
                 continue
             if p["k"] == "downcast":
                 if isinstance(v, EnumV): continue
+                if isinstance(v, EnumS):
+                    v = v.a if v.a.vi == p.get("vi") else v.b
+                    continue
                 return None
             if p["k"] == "field":
                 if isinstance(v, (Tup, EnumV)): v = v.items[p["i"]] if p["i"] < len(v.items) else None
-                elif v == "SELF": v = ("SELF." + p.get("name", "?"))
+                elif v == "SELF":
+                    v = getattr(self, "self_fields", {}).get(p.get("name"), "SELF." + p.get("name", "?"))
                 else: return None
             elif p["k"] == "constindex" or p["k"] == "index":
                 if isinstance(v, View):
@@ -258,6 +265,7 @@ class Interp:
             elif k == "discr":
                 x = self.read(rv["place"], env, mem)
                 if isinstance(x, EnumV): val = BV.const(x.vi, 64)
+                elif isinstance(x, EnumS): val = bv_ite(x.cond, BV.const(x.a.vi, 64), BV.const(x.b.vi, 64))
             elif k == "aggregate" and rv.get("agg") == "adt" and rv.get("adt", "").split("<")[0] in ("std::result::Result", "std::option::Option", "std::ops::ControlFlow"):
                 val = EnumV(rv["adt"], rv.get("vi", 0), [self.operand(o, env, mem) for o in rv["ops"]])
             elif k == "aggregate":
@@ -316,10 +324,35 @@ class Interp:
                     cty = a1.get("ty") or a1.get("place", {}).get("ty") or {}
                     ck = cty.get("def")
                     if ck in self.fns:
-                        sub = Interp.__new__(Interp); sub.fns = self.fns; sub.models = self.models
+                        sub = Interp.__new__(Interp); sub.fns = self.fns; sub.models = self.models; sub.self_fields = getattr(self, "self_fields", {})
                         rr_, mem2 = sub.run(ck, [args[1]] + list(args[0].items), mem)
                         for kk in mem: mem[kk] = mem2[kk]
                         r = EnumV(args[0].adt, good, [rr_])
+            elif "std::convert::TryFrom<u" in path and path.endswith("::try_from") and isinstance(args[0], BV):
+                import re as _re
+                m_ = _re.search(r"TryFrom<u(\d+|size)> for u(\d+|size)>", path)
+                wt = 64 if m_ is None or m_.group(2) == "size" else int(m_.group(2))
+                hi = BF.const(0)
+                upper = [b_ for b_ in args[0].bits[wt:] if not (b_ is not TOP and b_.is0())]
+                if len(upper) > 6 and all(b_ is not TOP and len(b_.vs) == 1 for b_ in upper):
+                    # "some upper bit is set" as one free variable: the upper bits are independent inputs, nothing else reads them
+                    hi = BF.var("any(%s..%s)" % (upper[0].vs[0], upper[-1].vs[0]))
+                else:
+                    for b_ in upper: hi = hi | b_
+                r = EnumS(~hi, EnumV("std::result::Result", 0, [BV(args[0].bits[:wt]).zext(wt)]), EnumV("std::result::Result", 1, [Tup([])]))
+            elif path in ("std::result::Result::<T, E>::unwrap_or_default", "std::option::Option::<T>::unwrap_or_default", "std::result::Result::<T, E>::unwrap_or", "std::option::Option::<T>::unwrap_or") \
+                    and isinstance(args[0], (EnumV, EnumS)):
+                good = 0 if path.startswith("std::result") else 1
+                def _dflt(like):
+                    return args[1] if len(args) > 1 and args[1] is not None else (BV.const(0, like.w) if isinstance(like, BV) else BF.const(0))
+                e_ = args[0]
+                if isinstance(e_, EnumV):
+                    r = e_.items[0] if e_.vi == good else (args[1] if len(args) > 1 else None)
+                else:
+                    ga, gb = (e_.a, e_.b) if e_.a.vi == good else (e_.b, e_.a)
+                    cnd = e_.cond if e_.a.vi == good else ~e_.cond
+                    val_ = ga.items[0]
+                    r = bv_ite(cnd, val_, _dflt(val_)) if isinstance(val_, BV) else ite(cnd, val_, _dflt(val_))
             elif path.startswith("core::num::<impl u") and path.rsplit("::", 1)[-1] in ("wrapping_sub", "wrapping_add") and isinstance(args[0], BV) and isinstance(args[1], BV):
                 r = self.binop("Sub" if path.endswith("wrapping_sub") else "Add", args[0], args[1])
             elif path.startswith("core::num::<impl u8>::") and path.rsplit("::", 1)[-1] in U8_FNS and (isinstance(args[0], BV) or isinstance(args[0], CellRef)):
@@ -334,7 +367,7 @@ class Interp:
             elif path in self.fns or c.get("resolved_local"):
                 key = path if path in self.fns else None
                 if key:
-                    sub = Interp.__new__(Interp); sub.fns = self.fns; sub.models = self.models
+                    sub = Interp.__new__(Interp); sub.fns = self.fns; sub.models = self.models; sub.self_fields = getattr(self, "self_fields", {})
                     r, mem2 = sub.run(key, args, mem)
                     for kk in mem: mem[kk] = mem2[kk]
             if r is None and not (path.endswith("write_u16") or path.endswith("write_u32")): raise Undecided("call " + path)
